@@ -217,11 +217,15 @@ def price_rows(family: str, step: int, start: int):
 
 
 def price_cases(family: str, step: int, start: int, maxlen: int):
+    """rows carry their price: (time, target, plug, price); every table once with non-round positive prices and, when it
+    has more than one row, once more with a ZERO price in its last row (a free-charging window is a valid price)"""
     rows = price_rows(family, step, start)
     for n in range(1, maxlen + 1):
         for combo in itertools.combinations(range(len(rows)), n):
-            seq = [rows[i] for i in combo]  # already time-sorted (rows are generated in time order)
+            seq = [rows[i] + (price_of(k),) for k, i in enumerate(combo)]  # already time-sorted
             yield tuple(seq)
+            if n > 1:
+                yield tuple(seq[:-1] + [seq[-1][:3] + (0.0,)])
 
 
 def price_of(i: int) -> float:
@@ -239,7 +243,7 @@ def ref_prices(seq, family: str, step: int, start: int, nsteps: int):
     for k in range(nsteps):
         t = start + k * step
         due: Dict[Tuple[str, str], Dict[str, float]] = {}
-        for i, (rt, tg, plug) in enumerate(seq):
+        for i, (rt, tg, plug, price) in enumerate(seq):
             if applied[i] or not rt < t:
                 continue
             applied[i] = True
@@ -250,7 +254,7 @@ def ref_prices(seq, family: str, step: int, start: int, nsteps: int):
                 sts = [s for s, g in cells.items() if h3.h3_to_parent(g, res) == tg]
             for s in sts:
                 if (s, plug) in cur:
-                    due.setdefault((s, plug), {})[tg] = price_of(i)  # same key: the later row wins
+                    due.setdefault((s, plug), {})[tg] = price  # same key: the later row wins
         for key, by_target in due.items():
             cur[key] = set(by_target.values())
         out.append({k2: set(v) for k2, v in cur.items()})
@@ -264,8 +268,8 @@ def _admissible(got: float, allowed) -> bool:
 def write_prices(path: str, seq, family: str):
     with open(path, "w") as f:
         f.write("time,%s,charger_id,price_kwh\n" % ("station_id" if family == "id" else "geoid"))
-        for i, (t, tg, plug) in enumerate(seq):
-            f.write(f"{t},{tg},{plug},{price_of(i)}\n")
+        for i, (t, tg, plug, price) in enumerate(seq):
+            f.write(f"{t},{tg},{plug},{price}\n")
 
 
 def _price_shard(shard) -> Dict[str, Any]:
@@ -288,7 +292,7 @@ def _price_shard(shard) -> Dict[str, Any]:
                 out["nontrivial"] += 1
             for lazy in (False, True):
                 out["runs"] += 1
-                covers_all = {tg for _, tg, _ in seq} >= set(cells) if family == "id" else None
+                covers_all = None
                 try:
                     got = run_updates(cfg, req_file, pf, lazy, mks, 5)
                 except Exception as e:
@@ -302,7 +306,7 @@ def _price_shard(shard) -> Dict[str, Any]:
                         diff = {f"{a}/{b}": (prices[(a, b)], sorted(want[k][(a, b)])) for (a, b) in want[k] if not _admissible(prices[(a, b)], want[k][(a, b)])}
                         # discriminate: a station that the row does not name got the price / the named one did not
                         named = set()
-                        for i, (rt, tg, plug) in enumerate(seq):
+                        for i, (rt, tg, plug, _price) in enumerate(seq):
                             if family == "id":
                                 named.update([tg] if tg in cells else [])
                             else:
@@ -315,7 +319,7 @@ def _price_shard(shard) -> Dict[str, Any]:
                         )
                         break
             if len(out["samples"]) < 1 and len(seq) >= 2:
-                out["samples"].append({"family": family, "step": step, "start": start, "rows": [list(r) + [price_of(i)] for i, r in enumerate(seq)], "expected_after_steps": [{f"{a}/{b}": sorted(v) for (a, b), v in w.items()} for w in want]})
+                out["samples"].append({"family": family, "step": step, "start": start, "rows": [list(r) for r in seq], "expected_after_steps": [{f"{a}/{b}": sorted(v) for (a, b), v in w.items()} for w in want]})
     finally:
         shutil.rmtree(d, ignore_errors=True)
     out["findings"] = [(list(k), m, dict(rp, step=step, start=start, family=family, kind="prices")) for k, (m, rp) in out["findings"].items()]
